@@ -433,7 +433,7 @@ impl Family for C19Subjects {
             let seq_start = rt::seq();
             sbj.step(st);
             let seq_end = rt::seq();
-            log.lock().unwrap().emits.push(Emit { sub: p, step: st.clone(), seq_start, seq_end, sub_before: true, sub_after: true, task: rt::task_id().unwrap_or(0), t: 0 });
+            log.lock().unwrap().emits.push(Emit { sub: p, step: st.clone(), seq_start, seq_end, sub_before: true, sub_after: true, task: rt::task_id().unwrap_or(0), t: 0, t_start: 0 });
           }
         }));
       }
